@@ -56,6 +56,20 @@ class Config:
     observe_all: bool = False       # every value computed at the top level (and most values computed in
                                     # scf bodies) is passed to an external function, so that it is observable
     float_extremes: bool = False    # float constants near the overflow / underflow thresholds
+    twin_consts: bool = False       # now and then an integer constant is a "twin" of an earlier constant of the
+                                    # same type in the program: a different value with the SAME Python hash
+                                    # (hash(-1) == hash(-2); v and v + k*(2**61-1)), else a neighbour v+-1 --
+                                    # what a pass that keys a dict/set on attributes must keep apart
+
+
+def hash_twins(v: int, w: int) -> list[int]:
+    """the other w-bit (signed representative) integers whose Python hash equals hash(v)"""
+    import sys
+
+    m = sys.hash_info.modulus
+    lo, hi = -(1 << (w - 1)), (1 << (w - 1)) - 1
+    cands = {v + k * m for k in range(-4, 5)} | {-1, -2, -1 - m, -2 - m}
+    return sorted(c for c in cands if lo <= c <= hi and c != v and hash(c) == hash(v))
 
 
 class ProgGen:
@@ -67,6 +81,7 @@ class ProgGen:
         self.ext_sigs: dict[str, str] = {}
         self.helpers: list[str] = []
         self.force_returns: list[tuple[str, str]] = []   # C16 shapes: top-level loop results to return
+        self.seen_ints: dict[str, list[int]] = {}
 
     def fresh(self, p: str = "v") -> str:
         self.n += 1
@@ -78,6 +93,20 @@ class ProgGen:
 
     # ------------------------------------------------------------------ constants
     def int_const(self, t: str) -> int:
+        if not self.cfg.twin_consts:
+            return self.int_const_base(t)
+        seen = self.seen_ints.setdefault(t, [])
+        v = None
+        if seen and width(t) > 1 and self.rng.random() < 0.25:
+            u = self.rng.choice(seen)
+            tw = hash_twins(u, width(t))
+            v = self.rng.choice(tw) if tw else self.wrap(u + self.rng.choice([1, -1]), width(t))
+        if v is None:
+            v = self.int_const_base(t)
+        seen.append(v)
+        return v
+
+    def int_const_base(self, t: str) -> int:
         w = width(t)
         r = self.rng.random()
         lo, hi = -(1 << (w - 1)), (1 << (w - 1)) - 1
@@ -851,6 +880,7 @@ class ProgGen:
         c = self.cfg
         self.n = 0; self.nb = 0; self.ext_sigs = {}; self.helpers = []
         self.force_returns = []
+        self.seen_ints = {}
         funcs: list[str] = []
         if c.calls and self.rng.random() < 0.4:
             funcs.append(self.helper())
